@@ -50,6 +50,7 @@ def plan(tier, seed):
     for i in range(2 if q else 4):
         specs.append({"kind": "snapshots", "idx": i, "budget_s": 25 if q else 200})
     specs.append({"kind": "inputs_sweep", "idx": 0, "budget_s": 20 if q else 150})
+    specs.append({"kind": "held_reference", "idx": 0, "budget_s": 20 if q else 150})
     trials = 32 if q else 200
     for part in range(8 if q else 12):
         specs.append({"kind": "first_use", "part": part, "parts": 8 if q else 12, "trials": trials, "timeout_s": 900 if q else 2400})
@@ -62,7 +63,7 @@ def finalize(agg, tier):
     for n in ("thread_runs:tsan", "thread_runs:plain", "thread_transcripts_compared", "hammer_digests", "interleaved_programs",
               "copies_checked", "destroyed_neighbours", "snapshots_compared", "signer_hash_state_checked", "first_use_trials",
               "first_use_yields_injected", "native_hammer_calls", "native_hammer_runs:plain", "native_hammer_runs:tsan", "python_hammer_calls", "random_storm_draws", "input_sweep_rounds",
-              "input_buffers_compared"):
+              "input_buffers_compared", "held_reference_objects"):
         if not c.get(n):
             out.append("deciding counter %s is zero" % n)
     for cv in CURVES:
@@ -1036,6 +1037,120 @@ def w_inputs_sweep(spec, ctx):
                           lambda: {"api": api, "before": orig.hex()[:200], "before_len": len(orig), "after": now.hex()[:200],
                                    "after_len": len(now)})
         ctx.count("input_sweep_rounds")
+
+
+def w_held_reference(spec, ctx):
+    """An object is created from parameters held in caller-owned mutable buffers; after the constructor has returned the
+    caller overwrites those buffers (they are the caller's).  From then on the object must behave like its TWIN, which was
+    created from immutable copies of the same values: an object that kept a reference instead of a copy changes with the
+    buffer."""
+    from Crypto.PublicKey import RSA, ECC
+    from Crypto.Signature import eddsa
+    from Crypto.Hash import SHA256, SHA1, HMAC, CMAC, Poly1305, BLAKE2b, KMAC128, cSHAKE128, KangarooTwelve, TupleHash128, SHAKE128
+    from Crypto.Cipher import AES, DES3, ChaCha20, Salsa20, ARC4, ChaCha20_Poly1305, PKCS1_OAEP, Blowfish
+    from Crypto.Protocol import HPKE, KDF
+    from Crypto.Util import Counter
+    rng = ctx.rng
+    R = rng.randbytes
+    rsa = RSA.generate(1024)
+    x25 = ECC.generate(curve="Curve25519")
+    ed = ECC.generate(curve="Ed25519")
+    ed4 = ECC.generate(curve="Ed448")
+
+    def U(o, *items):
+        """update() returns the object for some classes and None for others"""
+        o.update(*items)
+        return o
+
+    def cases():
+        """(name, make(wrap) -> object, use(object) -> bytes); wrap(b) gives the parameter in the chosen presentation"""
+        k16, k32, n12, iv16, n8 = R(16), R(32), R(12), R(16), R(8)
+        m = R(rng.choice([1, 16, 33, 100]))
+        label = R(rng.choice([1, 7, 40]))
+        ct_l = PKCS1_OAEP.new(rsa, label=label).encrypt(b"oaep message")
+        yield "OAEP.label", (lambda W: PKCS1_OAEP.new(rsa, label=W(label))), (lambda o: o.decrypt(ct_l))
+        yield "OAEP.label+hash", (lambda W: PKCS1_OAEP.new(rsa, hashAlgo=SHA256, label=W(label))), \
+            (lambda o: PKCS1_OAEP.new(rsa, hashAlgo=SHA256, label=label).decrypt(o.encrypt(b"x")))
+        yield "HMAC.key", (lambda W: HMAC.new(W(k16), digestmod=SHA256)), (lambda o: U(o, m).digest())
+        yield "HMAC.key+msg", (lambda W: HMAC.new(W(k32 * 3), W(m), SHA1)), (lambda o: U(o.copy(), m).digest() + o.digest())
+        yield "CMAC.key", (lambda W: CMAC.new(W(k16), ciphermod=AES)), (lambda o: U(o, m).digest())
+        yield "CMAC.key+msg", (lambda W: CMAC.new(W(k16), W(m[:5]), ciphermod=AES)), (lambda o: U(o, m).digest())
+        yield "Poly1305.key,nonce", (lambda W: Poly1305.new(key=W(k32), nonce=W(iv16), cipher=AES)), (lambda o: U(o, m).digest())
+        yield "BLAKE2b.key", (lambda W: BLAKE2b.new(digest_bytes=32, key=W(k16))), (lambda o: U(o, m).digest())
+        yield "BLAKE2b.key+data", (lambda W: BLAKE2b.new(digest_bytes=32, key=W(k16), data=W(m))), (lambda o: U(o, m).digest())
+        yield "KMAC128.key,custom", (lambda W: KMAC128.new(key=W(k16), mac_len=16, custom=W(b"custom"))), (lambda o: U(o, m).digest())
+        # (custom= of cSHAKE / KangarooTwelve / TupleHash, the EdDSA context, Counter prefix / suffix, key seeds and HPKE
+        # info / psk are documented as `bytes`: a mutable buffer is outside their documented types and is not offered)
+        yield "cSHAKE128.data", (lambda W: cSHAKE128.new(data=W(m), custom=b"custom string")), (lambda o: U(o, m).read(40))
+        k12c = R(300)
+        yield "K12.data", (lambda W: KangarooTwelve.new(data=W(m), custom=k12c)), (lambda o: U(o, m).read(40))
+        yield "SHAKE128.data", (lambda W: SHAKE128.new(W(m))), (lambda o: U(o, m).read(40))
+        yield "SHA256.data", (lambda W: SHA256.new(W(m))), (lambda o: U(o, m).digest())
+        yield "TupleHash128", (lambda W: U(TupleHash128.new(digest_bytes=16), W(m), W(k16))), (lambda o: U(o, m).digest())
+        for mode in ("ECB", "CBC", "CFB", "OFB", "CTR", "OPENPGP", "GCM", "EAX", "OCB", "CCM", "SIV"):
+            mid = getattr(AES, "MODE_" + mode)
+            if mode == "ECB":
+                mk = lambda W, mid=mid: AES.new(W(k16), mid)
+            elif mode in ("CBC", "CFB", "OFB", "OPENPGP"):
+                mk = lambda W, mid=mid: AES.new(W(k16), mid, iv=W(iv16))
+            elif mode == "CTR":
+                mk = lambda W, mid=mid: AES.new(W(k16), mid, nonce=W(n8))
+            elif mode == "SIV":
+                mk = lambda W, mid=mid: AES.new(W(k32), mid, nonce=W(n12))
+            else:
+                mk = lambda W, mid=mid, mode=mode: AES.new(W(k16), mid, nonce=W(n12[:11] if mode == "CCM" else n12))
+            if mode in ("GCM", "EAX", "OCB", "CCM", "SIV"):
+                yield "AES-" + mode, mk, (lambda o: b"".join(U(o, m).encrypt_and_digest(m + m)))
+                # associated data handed over BEFORE the buffer is overwritten, used when the tag is computed
+                yield "AES-%s.aad" % mode, (lambda W, mk=mk: U(mk(bytes), W(m))), \
+                    (lambda o: b"".join(o.encrypt_and_digest(k32)))
+            else:
+                yield "AES-" + mode, mk, (lambda o: o.encrypt(k32 + k32))
+        yield "AES-CTR.counter", (lambda W: AES.new(W(k16), AES.MODE_CTR, counter=Counter.new(64, prefix=n8[:4], suffix=n8[4:]))), \
+            (lambda o: o.encrypt(m))
+        yield "DES3-CBC", (lambda W: DES3.new(W(DES3.adjust_key_parity(bytes(range(1, 25)))), DES3.MODE_CBC, iv=W(n8))), (lambda o: o.encrypt(k16))
+        yield "Blowfish-CFB", (lambda W: Blowfish.new(W(k16[:9]), Blowfish.MODE_CFB, iv=W(n8))), (lambda o: o.encrypt(m))
+        yield "ChaCha20", (lambda W: ChaCha20.new(key=W(k32), nonce=W(n12))), (lambda o: o.encrypt(m))
+        n24 = R(24)
+        yield "XChaCha20", (lambda W: ChaCha20.new(key=W(k32), nonce=W(n24))), (lambda o: (o.seek(70), o.encrypt(m))[1])
+        yield "Salsa20", (lambda W: Salsa20.new(key=W(k32), nonce=W(n8))), (lambda o: o.encrypt(m))
+        yield "ARC4", (lambda W: ARC4.new(W(k16))), (lambda o: o.encrypt(m))
+        yield "ChaCha20_Poly1305", (lambda W: ChaCha20_Poly1305.new(key=W(k32), nonce=W(n12))), \
+            (lambda o: b"".join(U(o, m).encrypt_and_digest(m)))
+        s2v_key = R(32)
+        yield "S2V", (lambda W: U(U(KDF._S2V.new(W(s2v_key), AES), W(m)), W(k32))), (lambda o: o.derive())
+    first = True
+    while first or not ctx.expired():
+        first = False
+        for name, make, use in cases():
+            for pres in ("bytearray", "memoryview"):
+                held = []
+
+                def W(b, pres=pres):
+                    buf = bytearray(b)
+                    held.append(buf)
+                    return buf if pres == "bytearray" else memoryview(buf)
+                ctx.case(("held-reference", name, pres))
+                try:
+                    twin = make(bytes)
+                    expect = use(twin)
+                    obj = make(W)
+                except TypeError:
+                    ctx.count("held_reference_unsupported:%s:%s" % (name, pres))
+                    continue
+                for buf in held:                    # the caller re-uses its buffers
+                    for i in range(len(buf)):
+                        buf[i] ^= 0xA5
+                try:
+                    got = use(obj)
+                except Exception as e:      # noqa
+                    got = e
+                ctx.count("held_reference_objects")
+                ctx.check(isinstance(got, bytes) and got == expect, "held-reference:object-follows-callers-buffer:" + name.split(".")[0].split("+")[0],
+                          "an object created from parameters in caller-owned mutable buffers behaves differently from one created from "
+                          "immutable copies once the caller has overwritten its buffers (a reference was kept instead of a copy)",
+                          lambda: {"object": name, "parameters_given_as": pres, "buffers_overwritten": len(held),
+                                   "twin_result": expect.hex()[:120], "result": got.hex()[:120] if isinstance(got, bytes) else repr(got)[:200]})
 
 
 def w_snapshots(spec, ctx):
